@@ -773,7 +773,10 @@ const ALPHA: &[char] = &['a', 'b', 'c', 'é', '\n', 'x', 'a', 'b', '€', '😀'
 
 fn gen_input(r: &mut Rng, maxlen: usize) -> String {
     let n = r.below(maxlen + 1);
-    (0..n).map(|_| *r.pick(ALPHA)).collect()
+    let mut s: String = (0..n).map(|_| *r.pick(ALPHA)).collect();
+    // now and then the text starts with a byte order mark (an ordinary character no pattern of the pools matches)
+    if r.below(16) == 0 { s.insert(0, '\u{feff}'); }
+    s
 }
 /// structured random regexes over {a, b, c}: concatenation, alternation (with empty branches), groups and every repetition operator, nested to `depth`
 /// (nested repetitions with the SAME operator are forced now and then: `(x{2}){2}`, `(x+)+`)
@@ -827,6 +830,8 @@ fn gen_pats(r: &mut Rng, with_la: bool, n: usize, numbering: usize) -> Vec<PatSp
         0 => (0..n).collect(),
         1 => (0..n).rev().collect(),
         2 => (0..n).map(|i| 3 + 2 * i).collect(),
+        // token types beyond 16 bits (they are usize in the API)
+        4 => (0..n).map(|i| 65_536 * (1 + i) + i).collect(),
         _ => {
             let mut v: Vec<usize> = (0..n).map(|i| i * 3 + 1).collect();
             if !v.is_empty() { v.rotate_left(1); }
@@ -857,7 +862,7 @@ fn boundaries(s: &str) -> Vec<usize> {
 fn gen_case(family: &str, r: &mut Rng) -> Case {
     // a mode without patterns is a valid configuration (it yields no tokens)
     let npat = if r.below(16) == 0 { 0 } else { 1 + r.below(3) };
-    let numbering = r.below(4);
+    let numbering = r.below(5);
     match family {
         "stream" | "lookahead" => {
             let with_la = family == "lookahead";
@@ -1031,6 +1036,13 @@ fn gen_case(family: &str, r: &mut Rng) -> Case {
                    input, start_offset: 0, ops, with_positions: false }
         }
         "unsupported" => {
+            if r.below(400) == 0 {
+                // very deep nesting: regex-syntax answers with a nest-limit error; whatever the crate does, it must return (Ok or Err), not overflow the stack
+                let d = 5_000 + r.below(20_000);
+                let p = format!("{}a{}", "(".repeat(d), ")".repeat(d));
+                return Case { family: family.into(), modes: vec![ModeSpec { name: "M0".into(), pats: vec![PatSpec { p, tt: 0, la: None }], trans: vec![] }],
+                              input: "err".into(), start_offset: 0, ops: vec![], with_positions: false };
+            }
             let bad = r.below(2) == 0;
             let d = r.below(4);
             let p = if bad { gen_unsupported(r, d) } else { gen_supported(r, d) };
